@@ -16,57 +16,389 @@ import TzVerif.Proofs.SrcEqRule
 namespace TzVerif.Proofs.SrcEq
 open TzVerif TzVerif.Model TzVerif.Gen
 
+/-- `read_exact` at an `Int` count -/
+theorem read_exact_toNat (c : Bytes) (i : Int) : Src.read_exact c i = readExact c i.toNat := by
+  unfold Src.read_exact readExact Src.split_at_checked
+  by_cases h : i.toNat ≤ c.length <;> simp [h]
+
 theorem read_exact_eq (c : Bytes) (n : Nat) : Src.read_exact c (n : Int) = readExact c n := by
-  sorry
+  rw [read_exact_toNat, Int.toNat_natCast]
+
+theorem tz_positionFrom_shift {α : Type} (p : α → Bool) (l : List α) (k : Int) :
+    Src.positionFrom p k l = (Src.positionFrom p 0 l).map (· + k) := by
+  induction l generalizing k with
+  | nil => rfl
+  | cons x xs ih =>
+    unfold Src.positionFrom
+    split
+    · simp
+    · rw [ih (k + 1), ih (0 + 1)]
+      cases Src.positionFrom p 0 xs with
+      | none => rfl
+      | some i => simp only [Option.map_some]; congr 1; omega
+
+theorem tz_positionFrom_ge {α : Type} (p : α → Bool) (l : List α) (k i : Int) (h : Src.positionFrom p k l = some i) : k ≤ i := by
+  induction l generalizing k with
+  | nil => simp [Src.positionFrom] at h
+  | cons x xs ih =>
+    unfold Src.positionFrom at h
+    split at h
+    · simp only [Option.some.injEq] at h; omega
+    · have := ih _ h; omega
+
+/-- the split the source computes: at the first position where `p` holds, or at the end -/
+def splitAtPos (p : Nat → Bool) (l : Bytes) : Except ParseDataError (Bytes × Bytes) :=
+  readExact l (Option.getD (Src.position p l) (l.length : Int)).toNat
+
+theorem splitAtPos_eq (f : Nat → Bool) (l : Bytes) : splitAtPos (fun x => !f x) l = .ok (spanWhile f l) := by
+  induction l with
+  | nil => rfl
+  | cons x xs ih =>
+    unfold splitAtPos Src.position Src.positionFrom spanWhile
+    cases hx : f x with
+    | false => simp [readExact]
+    | true =>
+      simp only [Bool.not_true, Bool.false_eq_true, if_false, if_true]
+      rw [tz_positionFrom_shift]
+      unfold splitAtPos Src.position at ih
+      cases hp : Src.positionFrom (fun x => !f x) 0 xs with
+      | none =>
+        rw [hp] at ih
+        simp only [Option.map_none, Option.getD_none, Int.toNat_natCast, readExact, List.length_cons, Nat.le_refl, if_true,
+          List.take_length, List.drop_length] at ih ⊢
+        simp only [Except.ok.injEq] at ih
+        rw [← ih]
+        simp
+      | some i =>
+        rw [hp] at ih
+        have h0 := tz_positionFrom_ge _ _ _ _ hp
+        simp only [Option.map_some, Option.getD_some, readExact] at ih ⊢
+        have e : (i + (0 + 1)).toNat = i.toNat + 1 := by omega
+        rw [e]
+        by_cases hle : i.toNat ≤ xs.length
+        · simp only [hle, if_true, Except.ok.injEq] at ih
+          rw [← ih]
+          simp [hle]
+        · simp [hle] at ih
 
 theorem read_while_eq (c : Bytes) (f : Nat → Bool) : Src.read_while c f = .ok (readWhile c f) := by
-  sorry
+  unfold Src.read_while readWhile
+  rw [read_exact_toNat]
+  exact splitAtPos_eq f c
 
 theorem read_until_eq (c : Bytes) (f : Nat → Bool) : Src.read_until c f = .ok (readUntil c f) := by
-  sorry
+  unfold Src.read_until readUntil
+  rw [read_exact_toNat]
+  have := splitAtPos_eq (fun b => !f b) c
+  simp only [Bool.not_not] at this
+  exact this
 
 theorem read_tag_eq (c tag : Bytes) : Src.read_tag c tag = (readTag c tag).map (fun r => ((), r)) := by
-  sorry
+  unfold Src.read_tag readTag
+  rw [read_exact_eq]
+  cases readExact c tag.length with
+  | error e => rfl
+  | ok v =>
+    obtain ⟨x, rest⟩ := v
+    by_cases h : x = tag <;> simp [h, Except.map]
 
 /-- the source takes a tag slice; every call site passes a single byte -/
 theorem read_optional_tag_eq (c : Bytes) (b : Nat) : Src.read_optional_tag c [b] = .ok (readOptionalTag c b) := by
-  sorry
+  unfold Src.read_optional_tag readOptionalTag
+  rw [read_exact_eq]
+  cases c with
+  | nil => simp
+  | cons a rest =>
+    by_cases h : a = b
+    · subst h; simp [readExact]
+    · have h' : ¬ b = a := fun e => h e.symm
+      simp [h, h']
 
-theorem parse_int_i32_eq (ds : Bytes) : Src.parse_int_i32 ds = parseInt maxI32 ds := by
-  sorry
+theorem parse_int_eq (m : Nat) (ds : Bytes) : Src.parse_int m ds = parseInt m ds := rfl
 
-theorem parse_int_u16_eq (ds : Bytes) : Src.parse_int_u16 ds = parseInt maxU16 ds := by
-  sorry
+theorem parse_int_i32_eq (ds : Bytes) : Src.parse_int_i32 ds = parseInt maxI32 ds := rfl
+theorem parse_int_u16_eq (ds : Bytes) : Src.parse_int_u16 ds = parseInt maxU16 ds := rfl
+theorem parse_int_u8_eq (ds : Bytes) : Src.parse_int_u8 ds = parseInt maxU8 ds := rfl
 
-theorem parse_int_u8_eq (ds : Bytes) : Src.parse_int_u8 ds = parseInt maxU8 ds := by
-  sorry
+@[simp] theorem map_err_ok {T : Type} (x : T) : Src.map_err (.ok x) = .ok x := rfl
+@[simp] theorem map_err_error {T : Type} (e : ParseDataError) : Src.map_err (.error e : Except _ T) = .error (.parseData e) := rfl
+
+theorem read_exact_one (c : Bytes) : Src.read_exact c 1 = readExact c 1 := read_exact_eq c 1
+theorem read_exact_one_cons (a : Nat) (rest : Bytes) : Src.read_exact (a :: rest) 1 = .ok ([a], rest) := by
+  rw [read_exact_one]; simp [readExact]
+
+theorem digit_eq : Src.u8_is_ascii_digit = isAsciiDigit := rfl
+theorem alpha_eq : Src.u8_is_ascii_alphabetic = isAsciiAlphabetic := rfl
+
+theorem dec62 : (fun x : Nat => decide (x = 62)) = (fun x => x == 62) := rfl
 
 theorem parse_time_zone_designation_eq (c : Bytes) : Src.parse_time_zone_designation c = parseTimeZoneDesignation c := by
-  sorry
+  unfold Src.parse_time_zone_designation parseTimeZoneDesignation
+  cases c with
+  | nil => rfl
+  | cons a rest =>
+    by_cases h : a = 60
+    · subst h
+      simp only [read_exact_one_cons, List.head?_cons, beq_self_eq_true, if_true, read_until_eq, dec62]
+      rw [read_exact_one]
+      cases readExact (readUntil rest fun x => x == 62).snd 1 with
+      | error e => rfl
+      | ok v => rfl
+    · simp [h, read_while_eq, alpha_eq]
 
 theorem parse_hhmmss_eq (c : Bytes) : Src.parse_hhmmss c = parseHhmmss c := by
-  sorry
+  unfold Src.parse_hhmmss parseHhmmss
+  simp only [read_while_eq, digit_eq, parse_int_i32_eq, read_optional_tag_eq]
+  generalize readWhile c isAsciiDigit = r1
+  obtain ⟨hd, c1⟩ := r1
+  dsimp only
+  cases parseInt maxI32 hd with
+  | error e => rfl
+  | ok hour =>
+    dsimp only
+    generalize readOptionalTag c1 58 = r2
+    obtain ⟨b2, c2⟩ := r2
+    cases b2 with
+    | false => rfl
+    | true =>
+      dsimp only [if_true]
+      generalize readWhile c2 isAsciiDigit = r3
+      obtain ⟨md, c3⟩ := r3
+      dsimp only
+      cases parseInt maxI32 md with
+      | error e => rfl
+      | ok minute =>
+        dsimp only
+        generalize readOptionalTag c3 58 = r4
+        obtain ⟨b4, c4⟩ := r4
+        cases b4 with
+        | false => rfl
+        | true =>
+          dsimp only [if_true]
+          generalize readWhile c4 isAsciiDigit = r5
+          obtain ⟨sd, c5⟩ := r5
+          cases parseInt maxI32 sd with
+          | error e => rfl
+          | ok second => rfl
 
 theorem parse_signed_hhmmss_eq (c : Bytes) : Src.parse_signed_hhmmss c = parseSignedHhmmss c := by
-  sorry
+  unfold Src.parse_signed_hhmmss parseSignedHhmmss
+  simp only [parse_hhmmss_eq]
+  cases c with
+  | nil =>
+    simp only [List.head?_nil]
+    cases parseHhmmss [] with
+    | error e => rfl
+    | ok v => rfl
+  | cons a rest =>
+    by_cases h43 : a = 43
+    · subst h43
+      simp only [List.head?_cons, read_exact_one_cons]
+      simp only [show decide ((43:Nat) = 45) = false from rfl, decide_true, Bool.true_or, if_true]
+      cases parseHhmmss rest with
+      | error e => rfl
+      | ok v => rfl
+    · by_cases h45 : a = 45
+      · subst h45
+        simp only [List.head?_cons, read_exact_one_cons]
+        simp only [show decide ((45:Nat) = 43) = false from rfl, decide_true, Bool.false_or, if_true]
+        cases parseHhmmss rest with
+        | error e => rfl
+        | ok v => rfl
+      · simp only [List.head?_cons, h43, h45, decide_false, Bool.or_false, Bool.false_eq_true, if_false]
+        simp only [h43, h45, List.cons.injEq, false_and, imp_self, implies_true]
+        cases parseHhmmss (a :: rest) with
+        | error e => rfl
+        | ok v => rfl
 
 theorem parse_offset_eq (c : Bytes) : Src.parse_offset c = parseOffset c := by
-  sorry
-
-theorem parse_rule_day_eq (c : Bytes) : Src.parse_rule_day c = parseRuleDay c := by
-  sorry
+  unfold Src.parse_offset parseOffset
+  rw [parse_signed_hhmmss_eq]
+  cases parseSignedHhmmss c with
+  | error e => rfl
+  | ok v => rfl
 
 theorem parse_rule_time_eq (c : Bytes) : Src.parse_rule_time c = parseRuleTime c := by
-  sorry
+  unfold Src.parse_rule_time parseRuleTime
+  rw [parse_hhmmss_eq]
+  cases parseHhmmss c with
+  | error e => rfl
+  | ok v => rfl
 
 theorem parse_rule_time_extended_eq (c : Bytes) : Src.parse_rule_time_extended c = parseRuleTimeExtended c := by
-  sorry
+  unfold Src.parse_rule_time_extended parseRuleTimeExtended
+  rw [parse_signed_hhmmss_eq]
+  cases parseSignedHhmmss c with
+  | error e => rfl
+  | ok v => rfl
+
+theorem parse_rule_day_eq (c : Bytes) : Src.parse_rule_day c = parseRuleDay c := by
+  unfold Src.parse_rule_day parseRuleDay
+  cases c with
+  | nil =>
+    simp only [List.head?_nil, read_while_eq, digit_eq, map_err_ok, parse_int_u16_eq]
+    cases parseInt maxU16 (readWhile [] isAsciiDigit).fst with
+    | error e => rfl
+    | ok n =>
+      dsimp only
+      rw [← julian0_new_eq]
+      cases Src.Julian0WithLeap.new n <;> rfl
+  | cons a rest =>
+    by_cases h74 : a = 74
+    · subst h74
+      simp only [List.head?_cons, decide_true, if_true, read_exact_one_cons, read_while_eq, digit_eq, map_err_ok, parse_int_u16_eq]
+      cases parseInt maxU16 (readWhile rest isAsciiDigit).fst with
+      | error e => rfl
+      | ok n =>
+        dsimp only
+        rw [← julian1_new_eq]
+        cases Src.Julian1WithoutLeap.new n <;> rfl
+    · by_cases h77 : a = 77
+      · subst h77
+        simp only [List.head?_cons, show decide ((77 : Nat) = 74) = false from rfl, decide_true, if_true, Bool.false_eq_true, if_false,
+          read_exact_one_cons, read_while_eq, digit_eq, map_err_ok, parse_int_u8_eq, read_tag_eq]
+        generalize (readWhile rest isAsciiDigit).fst = d1
+        generalize (readWhile rest isAsciiDigit).snd = c1
+        cases parseInt maxU8 d1 with
+        | error e => rfl
+        | ok month =>
+          dsimp only
+          cases readTag c1 [46] with
+          | error e => rfl
+          | ok c2 =>
+            dsimp only [Except.map, map_err_ok]
+            generalize (readWhile c2 isAsciiDigit).fst = d3
+            generalize (readWhile c2 isAsciiDigit).snd = c3
+            cases parseInt maxU8 d3 with
+            | error e => rfl
+            | ok week =>
+              dsimp only
+              cases readTag c3 [46] with
+              | error e => rfl
+              | ok c4 =>
+                dsimp only [Except.map, map_err_ok]
+                generalize (readWhile c4 isAsciiDigit).fst = d5
+                generalize (readWhile c4 isAsciiDigit).snd = c5
+                cases parseInt maxU8 d5 with
+                | error e => rfl
+                | ok weekDay =>
+                  dsimp only
+                  rw [← mwd_new_eq]
+                  cases Src.MonthWeekDay.new month week weekDay <;> rfl
+      · simp only [List.head?_cons, h74, h77, decide_false, Bool.false_eq_true, if_false, read_while_eq, digit_eq, map_err_ok, parse_int_u16_eq,
+          List.cons.injEq, false_and, imp_self, implies_true]
+        cases parseInt maxU16 (readWhile (a :: rest) isAsciiDigit).fst with
+        | error e => rfl
+        | ok n =>
+          dsimp only
+          rw [← julian0_new_eq]
+          cases Src.Julian0WithLeap.new n <;> rfl
 
 theorem parse_rule_block_eq (c : Bytes) (ext : Bool) : Src.parse_rule_block c ext = parseRuleBlock c ext := by
-  sorry
+  unfold Src.parse_rule_block parseRuleBlock
+  simp only [parse_rule_day_eq, read_optional_tag_eq, map_err_ok, parse_rule_time_extended_eq, parse_rule_time_eq]
+  cases parseRuleDay c with
+  | error e => rfl
+  | ok v =>
+    obtain ⟨date, c1⟩ := v
+    dsimp only
+    generalize readOptionalTag c1 47 = r
+    obtain ⟨b, c2⟩ := r
+    cases b with
+    | false => rfl
+    | true =>
+      dsimp only [if_true]
+      cases ext with
+      | false =>
+        cases parseRuleTime c2 with
+        | error e => rfl
+        | ok w => rfl
+      | true =>
+        cases parseRuleTimeExtended c2 with
+        | error e => rfl
+        | ok w => rfl
+
+-- the common end of `parse_posix_tz` once the DST offset and the cursor after it are known
+set_option hygiene false in
+local macro "posix_tail" c4:ident ext:ident : tactic => `(tactic|
+  (cases $c4:ident with
+   | nil => rfl
+   | cons a4 r4 =>
+     simp only [List.isEmpty_cons, Bool.false_eq_true, if_false]
+     cases readTag (a4 :: r4) [44] with
+     | error e => rfl
+     | ok c5 =>
+       dsimp only [Except.map, map_err_ok]
+       cases parseRuleBlock c5 $ext:ident with
+       | error e => rfl
+       | ok v =>
+         obtain ⟨⟨ds, dstt⟩, c6⟩ := v
+         dsimp only
+         cases readTag c6 [44] with
+         | error e => rfl
+         | ok c7 =>
+           dsimp only [Except.map, map_err_ok]
+           cases parseRuleBlock c7 $ext:ident with
+           | error e => rfl
+           | ok v =>
+             obtain ⟨⟨de, det⟩, c8⟩ := v
+             dsimp only
+             cases c8 with
+             | cons a8 r8 => rfl
+             | nil =>
+               simp only [List.isEmpty_nil, Bool.not_true, Bool.false_eq_true, if_false]
+               cases LocalTimeType.new (-stdOffset) false (some stdName) with
+               | error e => rfl
+               | ok std =>
+                 dsimp only
+                 generalize LocalTimeType.new _ true (some dstName) = r
+                 cases r with
+                 | error e => rfl
+                 | ok dst =>
+                   dsimp only
+                   generalize AlternateTime.new std dst ds dstt de det = r
+                   cases r <;> rfl))
 
 /-- the whole parser -/
 theorem parse_posix_tz_eq (s : Bytes) (ext : Bool) : Src.parse_posix_tz s ext = parsePosixTz s ext := by
-  sorry
+  unfold Src.parse_posix_tz parsePosixTz
+  simp only [parse_time_zone_designation_eq, parse_offset_eq, read_tag_eq, parse_rule_block_eq, alternate_new_eq]
+  cases parseTimeZoneDesignation s with
+  | error e => rfl
+  | ok v =>
+    obtain ⟨stdName, c1⟩ := v
+    dsimp only [map_err_ok]
+    cases parseOffset c1 with
+    | error e => rfl
+    | ok v =>
+      obtain ⟨stdOffset, c2⟩ := v
+      dsimp only
+      cases c2 with
+      | nil =>
+        dsimp only [List.isEmpty_nil, if_true]
+        cases LocalTimeType.new (-stdOffset) false (some stdName) <;> rfl
+      | cons a2 r2 =>
+        simp only [List.isEmpty_cons, Bool.false_eq_true, if_false]
+        cases parseTimeZoneDesignation (a2 :: r2) with
+        | error e => rfl
+        | ok v =>
+          obtain ⟨dstName, c3⟩ := v
+          dsimp only [map_err_ok]
+          cases c3 with
+          | nil => rfl
+          | cons a3 r3 =>
+            by_cases h : a3 = 44
+            · subst h
+              simp only [List.head?_cons, decide_true, if_true, guardDefaultDstShift]
+              generalize hc : (44 :: r3 : List Nat) = c4
+              generalize stdOffset - 3600 = dstOffset
+              posix_tail c4 ext
+            · simp only [List.head?_cons, h, decide_false, Bool.false_eq_true, if_false]
+              cases parseOffset (a3 :: r3) with
+              | error e => rfl
+              | ok v =>
+                obtain ⟨dstOffset, c4⟩ := v
+                dsimp only [liftStr]
+                posix_tail c4 ext
 
 end TzVerif.Proofs.SrcEq
